@@ -50,8 +50,20 @@ func (w *srvWorld) checkC01() {
 			}
 		}
 		if msg == nil {
-			// only id-null objects: attribute to the earliest unanswered inbound
-			// message that expects exactly that many id-null errors in that shape
+			// only id-null objects: attribute to an unanswered inbound message
+			// that expects exactly that many id-null errors in that shape. Such
+			// messages are indistinguishable on the wire, so prefer one whose
+			// handlers (notifications) have all returned by now: the record is
+			// a violation only if no consistent attribution exists.
+			var fallback *message
+			handlersDone := func(c *message) bool {
+				for _, m := range c.Members {
+					if m.hasHandler() && m.Enter >= 0 && (m.Exit < 0 || m.Exit > o.Seq) {
+						return false
+					}
+				}
+				return true
+			}
 			for _, cand := range w.msgs {
 				if answered[cand.Idx] != nil || cand.Arrive < 0 || cand.Arrive > o.Seq {
 					continue
@@ -73,10 +85,16 @@ func (w *srvWorld) checkC01() {
 						all = false
 					}
 				}
-				if all {
+				if all && handlersDone(cand) {
 					msg = cand
 					break
 				}
+				if all && fallback == nil {
+					fallback = cand
+				}
+			}
+			if msg == nil {
+				msg = fallback
 			}
 		}
 		if msg == nil {
